@@ -15,11 +15,27 @@ func Read[T allowedGenericTypes](reader io.Reader) (result T, err error) {
 	return result, binary.Read(reader, binary.LittleEndian, &result)
 }
 
-func ReadBytes(reader io.Reader, length int) ([]byte, error) {
-	readBytes := make([]byte, length)
+// maxReadBytesPreallocation is the largest buffer ReadBytes allocates before a single byte has been read.
+const maxReadBytesPreallocation = 1 << 14
 
-	// a reader may return less than requested without an error: read until the buffer is full
+func ReadBytes(reader io.Reader, length int) ([]byte, error) {
+	if length < 0 {
+		return nil, ierrors.Errorf("failed to read serialized bytes: negative size (%d)", length)
+	}
+
+	// The length usually is a length prefix taken from the stream itself: never allocate more than as much
+	// again as the reader has already delivered, so that the prefix alone can not drive the allocation.
+	// A reader may return less than requested without an error: read until the buffer is full.
+	readBytes := make([]byte, min(length, maxReadBytesPreallocation))
 	nBytes, err := io.ReadFull(reader, readBytes)
+	for err == nil && len(readBytes) < length {
+		next := min(length-len(readBytes), len(readBytes))
+		readBytes = append(readBytes, make([]byte, next)...)
+
+		var n int
+		n, err = io.ReadFull(reader, readBytes[len(readBytes)-next:])
+		nBytes += n
+	}
 	if err != nil {
 		return nil, ierrors.Wrapf(err, "failed to read serialized bytes: read bytes (%d) != size (%d)", nBytes, length)
 	}
